@@ -15,7 +15,8 @@ pub fn run(out: &mut Out, thorough: bool, seed: u64, _extra: &[String]) {
     for pi in 0..programs {
         let scheme = if pi % 2 == 0 { SchemeType::BFV } else { SchemeType::BGV };
         // the first two programs run on the wide-plain-modulus family (t > 2^32), the rest on whatever `setup` draws
-        let s = match if pi < 2 { setup_wide_t(&mut r, thorough, scheme) } else { setup(&mut r, thorough, scheme) } { Some(s) => s, None => continue };
+        // ... the next two (and every tenth) on chains of bottom-of-range primes (bits(Q) < sum of the primes' bit counts)
+        let s = match if pi < 2 { setup_wide_t(&mut r, thorough, scheme) } else if pi < 4 || pi % 10 >= 8 { setup_low_primes(&mut r, thorough, scheme) } else { setup(&mut r, thorough, scheme) } { Some(s) => s, None => continue };
         let mut prog = Prog::new(&s, &mut r, 3);
         // fresh budgets (public-key and secret-key encryptions made by Prog::new)
         for it in &prog.pool {
